@@ -22,17 +22,19 @@ Definition indices (k : pyslice) (len : Z) : res (Z * option Z * Z) :=
 Definition offset_slice_indices_lsb0 (key : pyslice) (len : Z) : res pyslice :=
   do3 (start, stop, step) <- indices key len;
   if step <? 0 then
-    match stop with
-    | None => Ok (mkslice (Some (start + 1)) None (s_step key))
-    | Some stop =>
-        let first_element := start in
-        let last_element := start + ((stop + 1 - start) / step) * step in
-        Ok (mkslice (Some (len - last_element)) (Some (len - first_element - 1)) (s_step key))
-    end
+    (* fix D15a: items = len(range(start, -1 if stop is None else stop, step)) *)
+    let items := range_len start (match stop with None => -1 | Some s => s end) step in
+    if items =? 0 then Ok (mkslice (Some 0) (Some 0) (s_step key)) else
+    let first_element := start in
+    let last_element := start + (items - 1) * step in
+    let new_start := len - 1 - last_element in
+    let new_stop := len - 1 - first_element - 1 in
+    Ok (mkslice (Some new_start) (if new_stop <? 0 then None else Some new_stop) (s_step key))
   else
     match stop with
     | None => Err AssertionError   (* unreachable: stop is None only for negative steps *)
     | Some stop =>
+        if stop <=? start then Ok (mkslice (Some (len - start)) (Some (len - start)) (s_step key)) else
         let first_element := start in
         let last_element := start + ((stop - 1 - start) / step) * step in
         Ok (mkslice (Some (len - last_element - 1)) (Some (len - first_element)) (s_step key))
